@@ -17,12 +17,16 @@ pub struct Swarm {
     pub targets: Vec<Vec<Setter>>,
     pub w: OpWeights,
     pub max_voices: usize,
+    /// scripted ops executed before the random part
+    pub prelude: Vec<TOp>,
 }
 
 #[derive(Clone, Debug, Default)]
 pub struct OpWeights {
     pub load: u32,
     pub clone: u32,
+    pub clone_from: u32,
+    pub reload: u32,
     pub dropengine: u32,
     pub set: u32,
     pub set_target: u32,
@@ -107,6 +111,18 @@ pub fn adversarial_f64(r: &mut Rng, lo: f64, hi: Option<f64>) -> f64 {
         },
         9 => -r.uniform(1.0, 1e9),
         10 => r.uniform(-2.0, 3.0),
+        11 | 12 => {
+            // 1-2 ulp around values a setter may special-case: defaults and round numbers
+            let c = *r.pick(&[1.0f64, 0.5, 0.0, 2.0, 0.25, 1e-6, 0.1, 24.0, -24.0, 0.55]);
+            match r.below(5) {
+                0 => c,
+                1 => next_up(c),
+                2 => next_down(c),
+                3 => next_up(next_up(c)),
+                _ => next_down(next_down(c)),
+            }
+        }
+        13 => *r.pick(&[f64::MAX / 2.0, next_up(f64::MAX / 2.0), 1e308, 1.5e308, -1e308, f64::MAX / 4.0, 9.007199254740993e15, 16777217.0, 4294967297.0, 1.0000000000000002e-6]),
         _ => {
             let h = hi.unwrap_or(lo + 4.0);
             r.uniform(lo, h)
@@ -284,7 +300,7 @@ pub fn swarm(prop: Prop, r: &mut Rng, pools: &Pools, corpus_len: usize) -> Swarm
     }
     let bodies: Vec<u64> = (0..4).map(|k| k as u64).collect();
     let nutt = r.range(1, 4);
-    let mut utts = Vec::new();
+    let mut utts: Vec<Utt> = Vec::new();
     for _ in 0..nutt {
         let class = if heavy { *r.pick(&[0usize, 1, 2, 2]) } else { *r.pick(&[0usize, 1, 2, 2, 2, 3, 3, 3, 3, 4]) };
         let class = if class == 4 && !r.chance(0.15) { 3 } else { class };
@@ -312,6 +328,7 @@ pub fn swarm(prop: Prop, r: &mut Rng, pools: &Pools, corpus_len: usize) -> Swarm
     }
     let mut w = OpWeights::default();
     let profile: &'static str;
+    #[allow(unused_assignments)]
     let mut nops = r.range(8, 40);
     let mut max_voices = 1;
     match prop {
@@ -320,6 +337,7 @@ pub fn swarm(prop: Prop, r: &mut Rng, pools: &Pools, corpus_len: usize) -> Swarm
             w.load = 3;
             w.set = 60;
             w.clone = if profile == "clone_heavy" { 15 } else { 3 };
+            w.clone_from = if profile == "clone_heavy" { 8 } else { 2 };
             w.dropengine = 1;
             w.setw_valid = 2;
             nops = r.range(10, 60);
@@ -333,6 +351,8 @@ pub fn swarm(prop: Prop, r: &mut Rng, pools: &Pools, corpus_len: usize) -> Swarm
             w.vsnew = if profile == "voiceset_heavy" { 30 } else { 6 };
             w.synth = if profile == "synth_heavy" { 25 } else { 10 };
             w.clone = 3;
+            w.clone_from = 2;
+            w.reload = 3;
             w.set = 3;
             w.dropengine = 1;
             nops = r.range(8, 40);
@@ -362,6 +382,7 @@ pub fn swarm(prop: Prop, r: &mut Rng, pools: &Pools, corpus_len: usize) -> Swarm
             w.set = if profile == "setter_histories" { 25 } else { 8 };
             w.set_target = if profile == "setter_histories" { 30 } else { 12 };
             w.clone = if profile == "clone_heavy" { 15 } else { 4 };
+            w.clone_from = if profile == "clone_heavy" { 8 } else { 2 };
             w.dropengine = 1;
             w.synth = 30;
             w.synthbad = if profile == "failed_ops_heavy" { 15 } else { 3 };
@@ -373,6 +394,35 @@ pub fn swarm(prop: Prop, r: &mut Rng, pools: &Pools, corpus_len: usize) -> Swarm
             nops = r.range(10, 60);
             max_voices = 2;
         }
+    }
+    // rare long-audio runs: thousands of frames / hundreds of thousands of samples, so that counters,
+    // block sizes and tables sized for "typical" utterances are crossed
+    let mut prelude: Vec<TOp> = Vec::new();
+    if matches!(prop, Prop::C02 | Prop::C03) && !heavy && r.chance(0.015) {
+        let n = r.range(80, 120);
+        let start = r.below(corpus_len - n);
+        let long = Utt { lines: (start..start + n).map(|x| x as u32).collect(), timed: 0 };
+        let mi = 0;
+        let v = VoiceRef::Gen(VoiceSpec { meta: metas[mi].0.clone(), body: pools.body(metas[mi].1, 0) });
+        prelude.push(TOp { task: 0, op: Op::Load { e: 0, voices: vec![v], via_files: false } });
+        prelude.push(TOp { task: 0, op: Op::Set { e: 0, s: Setter::Speed(*r.pick(&[0.25, 0.3, 0.5])) } });
+        prelude.push(TOp { task: 0, op: Op::Set { e: 0, s: Setter::Fperiod(*r.pick(&[60, 80, 120])) } });
+        if prop == Prop::C02 {
+            prelude.push(TOp { task: 0, op: Op::NewGen { e: 0, g: 0, utt: long.clone() } });
+            prelude.push(TOp { task: 0, op: Op::Drain { g: 0, max: *r.pick(&[1023, 1024, 1100, 2500]) } });
+            prelude.push(TOp { task: 0, op: Op::Query { g: 0 } });
+            prelude.push(TOp { task: 1, op: Op::Finish { g: 0 } });
+            prelude.push(TOp { task: 0, op: Op::NewGen { e: 0, g: 1, utt: long.clone() } });
+            prelude.push(TOp { task: 0, op: Op::Step { g: 1, extra: 0 } });
+            prelude.push(TOp { task: 0, op: Op::Finish { g: 1 } });
+        } else {
+            prelude.push(TOp { task: 0, op: Op::Synth { e: 0, utt: long.clone(), form: Form::Slice } });
+            prelude.push(TOp { task: 1, op: Op::Synth { e: 0, utt: long.clone(), form: Form::Slice } });
+            prelude.push(TOp { task: 1, op: Op::CloneEngine { src: 0, dst: 1 } });
+            prelude.push(TOp { task: 1, op: Op::Synth { e: 1, utt: long.clone(), form: Form::Slice } });
+        }
+        utts = vec![make_utt(r, corpus_len, 2)];
+        nops = prelude.len() + 4;
     }
     // targets (C03): small set of complete-ish conditions reached through different histories
     let ntargets = r.range(1, 3);
@@ -395,7 +445,7 @@ pub fn swarm(prop: Prop, r: &mut Rng, pools: &Pools, corpus_len: usize) -> Swarm
     Swarm {
         ntasks: r.range(1, 6) as u8,
         nops,
-        profile,
+        profile: if prelude.is_empty() { profile } else { "long_audio" },
         heavy,
         metas: metas.iter().map(|m| m.0.clone()).collect(),
         bodies: metas.iter().flat_map(|m| bodies.iter().map(|k| pools.body(m.1, *k as usize)).collect::<Vec<_>>()).collect(),
@@ -403,6 +453,7 @@ pub fn swarm(prop: Prop, r: &mut Rng, pools: &Pools, corpus_len: usize) -> Swarm
         targets,
         w,
         max_voices,
+        prelude,
     }
 }
 
@@ -443,6 +494,9 @@ impl Gen {
     }
 
     pub fn next(&mut self, sim: &Sim) -> TOp {
+        if !self.sw.prelude.is_empty() {
+            return self.sw.prelude.remove(0);
+        }
         // task choice: sticky
         if self.r.chance(0.4) {
             self.cur_task = self.r.below(self.sw.ntasks as usize) as u8;
@@ -474,6 +528,8 @@ impl Gen {
             if has_g { w.query } else { 0 },
             if has_g { w.finish } else { 0 },
             if has_g { w.dropgen } else { 0 },
+            w.clone_from,
+            w.reload,
         ];
         let k = self.r.weighted(&weights);
         let e = *self.r.pick(&occupied_e);
@@ -582,6 +638,12 @@ impl Gen {
             }
             12 => Op::Query { g: *self.r.pick(&occupied_g) },
             13 => Op::Finish { g: *self.r.pick(&occupied_g) },
+            15 => {
+                // clone_from into an existing engine if there is one, else a fresh slot
+                let dst = if occupied_e.len() >= 2 && self.r.chance(0.8) { *self.r.pick(&occupied_e) } else { self.r.below(MAX_ENGINES) };
+                Op::CloneFrom { src: e, dst }
+            }
+            16 => Op::Reload { e, voices: self.voices_for_load() },
             _ => Op::DropGen { g: *self.r.pick(&occupied_g) },
         };
         TOp { task, op }
